@@ -24,8 +24,11 @@ KEYS = [A, B, Cc, D]
 ATOL = 1e-9
 
 PEXPR = {"a": A, "b": B, "a+b": A + B, "2a": 2 * A, "ab": A * B, "cos(a)": sympy.cos(A), "a+0.5": A + 0.5, "0.5": 0.5, "3": 3, "pi": sympy.pi, "F0.25": sympy.Float(0.25), "c": Cc,
-         "b-c/2": B - Cc / 2}
-VALS = {"u": None, "0.3": 0.3, "e": E, "-1.2": -1.2, "1/3": sympy.Rational(1, 3), "0": 0, "0.0": 0.0, "S0": sympy.Integer(0)}
+         "b-c/2": B - Cc / 2,
+         # parameters with BOUND variables (a summation index, an integration variable): they are not symbols the parameter depends on
+         "sum": sympy.Sum(A * sympy.Symbol("k"), (sympy.Symbol("k"), 1, 3)), "int+a": sympy.Integral(B * sympy.Symbol("t"), (sympy.Symbol("t"), 0, 1)) + A}
+VALS = {"u": None, "0.3": 0.3, "e": E, "-1.2": -1.2, "1/3": sympy.Rational(1, 3), "0": 0, "0.0": 0.0, "S0": sympy.Integer(0),
+        "z": 0.3 + 0.2j, "zs": sympy.Float(0.5) - sympy.I / 4}   # non-real values: binding still commutes with evaluation (conjugates inside a dagger are real work)
 
 
 def mk_operation(d):
@@ -92,6 +95,8 @@ def op_case(case):
     nt = False
     for md in case["maps"]:
         m = mk_map(md)
+        if not is_gate and any(sympy.sympify(v).is_real is False for v in m.values()):
+            continue      # a MultiPhaseOperation is defined for real phases only
         m_items = list(m.items())
         bound = op.bind(m)
         k += 1
@@ -319,6 +324,8 @@ def op_alphabet(thorough):
     for ps in (("a", "b"), ("a", "0.5", "a+b", "3"), ("0.5", "3"), ("2a", "cos(a)", "c", "b-c/2")):
         ops.append({"k": "mp", "p": list(ps), "q": []})
     ops += [{"k": "X", "q": [0]}, {"k": "CNOT", "q": [0, 1]}]
+    ops += [{"k": "RX", "p": ["sum"], "q": [0]}, {"k": "RZ", "p": ["int+a"], "q": [1]}, {"k": "RY", "p": ["sum"], "q": [1, 0], "w": ["c1", "dagger"]}, {"k": "U3", "p": ["int+a", "sum", "b"], "q": [0]},
+            {"k": "custom", "p": ["sum", "int+a"], "q": [0]}, {"k": "mp", "p": ["sum", "0.5", "int+a", "b"], "q": []}]
     return ops
 
 
@@ -328,6 +335,7 @@ def run(run):
     vals = ["u", "0.3", "e", "-1.2", "1/3", "0", "0.0"] if thorough else ["u", "0.3", "e", "0"]
     maps = [list(m) + ["u"] for m in itertools.product(vals, repeat=3)] + [[x, y, "u", w] for x in ("u", "0.3") for y in ("u", "e") for w in ("0.3", "e", "0")]
     maps += [[x, y, z, "u"] for x, y, z in itertools.product(("u", "0.0"), repeat=3)][1:] + [[x, y, z, "u"] for x, y, z in itertools.product(("u", "S0"), repeat=3)][1:]
+    maps += [[x, y, "u", "u"] for x in ("z", "zs") for y in ("u", "0.3", "z")] + [["u", "zs", "z", "u"], ["0.3", "z", "u", "u"]]
     ops = op_alphabet(thorough)
     blk = 27
     cases = [{"op": o, "maps": maps[i:i + blk]} for o in ops for i in range(0, len(maps), blk)]
